@@ -50,7 +50,7 @@ FoldSeq(Op(_, _), acc, q) == IF q = <<>> THEN acc ELSE FoldSeq(Op, Op(acc, Head(
 (* of two dicts, abstracted to the token stored in the first, with "#n"     *)
 (* appended when the list no longer has its two entries).  "" = key absent. *)
 NoVal == ""
-MkData(nm, ns) == [name |-> nm, eid |-> NoVal, ns |-> ns, k |-> NoVal, props |-> NoVal, vattr |-> NoVal]
+MkData(nm, ns) == [name |-> nm, eid |-> NoVal, ns |-> ns, k |-> NoVal, props |-> NoVal, vattr |-> NoVal, eb |-> NoVal]
 Policies == {"DEFAULT", "EDIF"}
 
 (* Names and identifiers are atomic tokens; case folding and EDIF legality  *)
